@@ -108,6 +108,14 @@ Goal exists cfg pd text, dom_C10 CPY pd = true /\ known_C10 CPY [] pd = ["C10-py
     py_generate uc_exec cfg pd = Ok text /\ contains_sub (lit "    1_A = ""1a""") text = true.
 Proof. exact Props.C10.C10_python_digit_name_refuted. Qed.
 Print Assumptions Props.C10.C10_python_digit_name_refuted.
+Goal exists cfg pd text, dom_C10 CKT pd = true /\ known_C10 CKT [] pd = ["C10-digit-name"%string] /\
+    kt_generate uc_exec cfg pd = Ok text /\ contains_sub (lit "val 1st: String") text = true.
+Proof. exact Props.C10.C10_kotlin_digit_name_refuted. Qed.
+Print Assumptions Props.C10.C10_kotlin_digit_name_refuted.
+Goal exists cfg pd text, dom_C10 CGO pd = true /\ known_C10 CGO [] pd = ["C10-digit-name"%string] /\
+    go_generate uc_exec cfg pd = Ok text /\ contains_sub (lit "1x string `json:") text = true.
+Proof. exact Props.C10.C10_go_digit_name_refuted. Qed.
+Print Assumptions Props.C10.C10_go_digit_name_refuted.
 Goal exists cfg pd text, known_C10 CPY [] pd = ["C10-python-empty-union"%string] /\
     py_generate uc_exec cfg pd = Ok text /\ contains_sub (lit "E = Union[]") text = true.
 Proof. exact Props.C10.C10_python_empty_union_refuted. Qed.
